@@ -436,4 +436,18 @@ def _validity(chk, ctx) -> None:
         want = T.spec(src, {'S': 'tuple(cls.get_suits(cards))', 'R': 'tuple(cls.get_ranks(cards))'})
         chk.ob('C04.validity', f'Card.{name}', rets == [want], fi.loc,
                'suit / rank predicates used by the keys', got=[T.show(r) for r in rets], want=T.show(want))
-    chk.floor('C04.validity', 7)
+    # the rank / suit views keep every card, unknown ones included (an unknown card must reach the key and make the lookup fail)
+    for name, attr in (('get_ranks', 'rank'), ('get_suits', 'suit')):
+        fi = card.methods.get(name)
+        if fi is None:
+            raise AnalysisError(f'Card.{name} vanished')
+        loops = ctx.m.fors(fi.node, 'cls.clean(cards)')
+        ok = len(loops) == 1 and len(loops[0].body) == 1 and isinstance(loops[0].body[0], ast.Expr) and isinstance(loops[0].body[0].value, ast.Yield) \
+            and isinstance(loops[0].target, ast.Name) and T.norm(loops[0].body[0].value.value) == ('attr', ('name', loops[0].target.id), attr)
+        if not ok:
+            # the same as one expression
+            ok = any(isinstance(n, (ast.Return, ast.YieldFrom, ast.Expr)) and ctx.m.eq(T.norm(getattr(n, 'value', None).value if isinstance(getattr(n, 'value', None), ast.YieldFrom) else n.value),
+                                                                                        f'(card.{attr} for card in cls.clean(cards))', fn=fi.node)
+                     for n in fi.node.body if getattr(n, 'value', None) is not None)
+        chk.ob('C04.validity', f'Card.{name}', ok, fi.loc, f'the {attr}s of a card set are the {attr}s of ALL its cards, unknown ones included, in order')
+    chk.floor('C04.validity', 9)
